@@ -55,6 +55,56 @@ class _Sub(ast.NodeTransformer):
         return node
 
 
+def _split_live_ranges(f, names):
+    """A new temporary that is assigned in several places (the same helper line in two branches, `n = len(m)` ... `n = len(m)`) is split into one
+    name per assignment when every read of it follows one of the assignments inside the same block before the next assignment: the
+    copies are then independent single-assignment temporaries."""
+    for v in sorted(names):
+        stores = [n for n in _own(f) if isinstance(n, ast.Name) and n.id == v and isinstance(n.ctx, (ast.Store, ast.Del))]
+        if len(stores) < 2:
+            continue
+        loads = [n for n in ast.walk(f) if isinstance(n, ast.Name) and n.id == v and isinstance(n.ctx, ast.Load)]
+        defs = []
+        ok = True
+        for st in stores:
+            d = None
+            for n in _own(f):
+                if isinstance(n, ast.Assign) and len(n.targets) == 1 and n.targets[0] is st:
+                    d = n
+            if d is None:
+                ok = False
+                break
+            defs.append(d)
+        if not ok:
+            continue
+        covered = set()
+        ranges = []
+        for d in defs:
+            blk = _find_block(f, d)
+            if blk is None:
+                ok = False
+                break
+            i = next(k for k, s_ in enumerate(blk) if s_ is d)
+            rng = []
+            for s_ in blk[i + 1:]:
+                if any(isinstance(n, ast.Name) and n.id == v and isinstance(n.ctx, (ast.Store, ast.Del)) for n in ast.walk(s_)):
+                    break
+                rng.append(s_)
+            mine = [n for s_ in rng for n in ast.walk(s_) if isinstance(n, ast.Name) and n.id == v and isinstance(n.ctx, ast.Load)]
+            if any(id(n) in covered for n in mine) or any(isinstance(n, ast.Name) and n.id == v for n in ast.walk(d.value)):
+                ok = False
+                break
+            covered |= {id(n) for n in mine}
+            ranges.append((d, mine))
+        if not ok or covered != {id(n) for n in loads}:
+            continue
+        for k, (d, mine) in enumerate(ranges):
+            new = f'{v}__d{k + 1}'
+            d.targets[0].id = new
+            for n in mine:
+                n.id = new
+
+
 def propagate_function(f, ref_names):
     done = []
     params = {a.arg for a in ast.walk(f.args) if isinstance(a, ast.arg)}
@@ -81,6 +131,7 @@ def propagate_function(f, ref_names):
                 if not isinstance(s_, (ast.FunctionDef, ast.AsyncFunctionDef, ast.ClassDef)):
                     st.append(s_)
             b[:] = out
+    _split_live_ranges(f, alpha.bound_names(f) - set(ref_names) - params)
     for _round in range(6):
         changed = False
         bound = alpha.bound_names(f)
